@@ -117,6 +117,9 @@ class BX:
             # replication: 40 copies (distinct 2-byte tags) of every set of <= 2 strings behind a shared prefix of 127..129 bytes:
             # the statistical coders only give 2-3 bit codewords (several strings per 16-bit decoding chunk) on inputs of this size
             'sigma=2,L=2,pal=abc,stretch=1,pd=minb,nf=1,rep=40,maxn=2,pre=125+126+127',
+            # a named family: runs c^1..c^n_i whose letter weights grow by the golden ratio (3 400 strings, 700 KB): every rare byte gets a
+            # codeword longer than the 16-bit decoding chunk (decoding subtrees, their save/load), for the kinds with a statistical coder
+            'family=fibruns,depth=16,pd=min,nf=1,kinds=HTFC+HHTFC+HASHHF+HASHUFFDAC+RPHTFC',
         ],
         'thorough': [
             'sigma=2,L=2,pal=abc+ext+sgn+spr,stretch=1+130,pd=full,nf=4',
@@ -137,6 +140,7 @@ class BX:
             'sigma=2,L=2,pal=abc+sgn,stretch=1,pd=minb,nf=1,rep=40,pre=0+125+126+127',
             'sigma=2,L=2,pal=abc,stretch=1,pd=minb,nf=1,rep=99,maxn=3,pre=126+16382',
             'sigma=3,L=2,pal=abc,stretch=1,pd=minb,nf=1,rep=30,maxn=3,pre=0+126',
+            'family=fibruns,depth=12+13+14+15+16+17+18,pd=quick,nf=1,kinds=HTFC+HHTFC+HASHHF+HASHUFFDAC+RPHTFC',
         ],
     }
     DEADLINE = {'quick': 300, 'thorough': 3600}
@@ -179,6 +183,8 @@ class BX:
             strings = '@' + sf
         cmd = [binary, '--one', '--prop', f['prop'], '--kind', f['kind'], '--params', f['params'], '--strings', strings, '--src', f['src'],
                '--sigma', cell.get('sigma', '2'), '--L', cell.get('L', '2'), '--stretch', cell.get('stretch', '1'), '--pal', cell.get('pal', 'abc'), '--nf', cell.get('nf', '2'), '--pre', cell.get('pre', '0'), '--rep', cell.get('rep', '1')]
+        if cell.get('family'):
+            cmd += ['--family', cell['family']]
         if 'timeout' in f.get('sig', ''):
             cmd += ['--subtimeout', '300']      # a timed-out sub-cell is re-run alone with a long limit before it is called a hang
         keys = []
@@ -232,7 +238,7 @@ class BX:
         runs = []
         for si, scope in enumerate(self.scopes(prop, tier)):
             for flav in flavours:
-                if tier == 'quick' and flav != flavours[0] and any(t in scope for t in ('pre=', 'stretch=130', 'rep=', 'L=4,')):
+                if tier == 'quick' and flav != flavours[0] and any(t in scope for t in ('pre=', 'stretch=130', 'rep=', 'L=4,', 'family=')):
                     continue      # quick tier: the small-MEMALLOC flavour on the two exhaustive subset scopes and the ramp only
                 runs.append((scope, flav))
         for ri, (scope, flav) in enumerate(runs):
